@@ -8,6 +8,7 @@ import (
 	"context"
 	"errors"
 	"io"
+	"sync/atomic"
 
 	"github.com/kubewharf/kubebrain/pkg/storage"
 	badgerkv "github.com/kubewharf/kubebrain/pkg/storage/badger"
@@ -16,6 +17,7 @@ import (
 	tikvkv "github.com/kubewharf/kubebrain/pkg/storage/tikv"
 	"github.com/kubewharf/kubebrain/pkg/zzmodel"
 	"github.com/kubewharf/kubebrain/pkg/zzverif"
+	"github.com/tikv/client-go/v2/oracle"
 	"github.com/tikv/client-go/v2/testutils"
 	"github.com/tikv/client-go/v2/tikv"
 )
@@ -221,7 +223,64 @@ func NewMockTiKV() storage.KvStorage {
 	}
 	st, err := tikv.NewTestTiKVStore(rpcClient, pdClient, nil, nil, 0)
 	zzverif.Assert(err == nil, "mock tikv store")
+	lastTiKV = st
 	return tikvkv.NewKvStoreWithStorage([]*tikv.KVStore{st})
+}
+
+var lastTiKV *tikv.KVStore
+
+// vFailingOracle fails the n-th timestamp request it sees (native counterpart of
+// zzverif.SetTiKVOracleFault).
+type vFailingOracle struct {
+	oracle.Oracle
+	n int32
+}
+
+func (o *vFailingOracle) GetTimestamp(ctx context.Context, opt *oracle.Option) (uint64, error) {
+	if atomic.LoadInt32(&o.n) > 0 && atomic.AddInt32(&o.n, -1) == 0 {
+		return 0, errors.New("pd: timestamp request failed")
+	}
+	return o.Oracle.GetTimestamp(ctx, opt)
+}
+
+// SetOracleFault makes the n-th following timestamp request to the PD oracle of the store made by
+// the last NewMockTiKV fail.
+func SetOracleFault(n int) {
+	if zzverif.Symbolic() {
+		zzverif.SetTiKVOracleFault(n)
+		return
+	}
+	lastTiKV.SetOracle(&vFailingOracle{Oracle: lastTiKV.GetOracle(), n: int32(n)})
+}
+
+// VerifC11TiKVOracle: the TiKV adapter's timestamp oracle while one request to PD fails: the
+// adapter reports the failure (it never makes a timestamp up: the revisions of a new leader and the
+// snapshots of scans are taken from it), and the timestamps it does return keep increasing.
+func VerifC11TiKVOracle() {
+	st := NewMockTiKV()
+	t1, err := st.GetTimestampOracle(ctx)
+	zzverif.Assert(err == nil, "timestamp: no error")
+	at := 1 + zzverif.Choose("failAt", 2)
+	SetOracleFault(at)
+	var ts []uint64
+	failed := false
+	for i := 1; i <= 3; i++ {
+		t, err := st.GetTimestampOracle(ctx)
+		if i == at {
+			zzverif.Assert(err != nil, "a failed timestamp request is reported as an error, never answered with a made-up timestamp")
+			failed = true
+			continue
+		}
+		zzverif.Assert(err == nil, "timestamp: no error")
+		ts = append(ts, t)
+	}
+	zzverif.Assert(failed, "the fault was injected")
+	prev := t1
+	for _, t := range ts {
+		zzverif.Assert(t > prev, "timestamps keep increasing")
+		prev = t
+	}
+	zzverif.Cover("done")
 }
 
 // VerifC11TiKV: the TiKV adapter against the contract.
